@@ -16,9 +16,10 @@ cnt, where, edges, funcs = strops.survey(P)
 ents = [dict(function=f, op=o, count=n) for (f, o), n in sorted(cnt.items())]
 json.dump(
     dict(
-        comment="Frozen inventory of string operations that drop, alter, search or tokenise characters, per library function (rule A14.str-ops; verdicts are per property scope and operation, see props/strops.py). A change here means the way some text / attribute value / class / expression is cut up or cleaned has changed: review it, then regenerate with tools/gen_str_ops.py. `functions` lists the library functions that existed at review time with their callers: a function not listed is a new helper and belongs to the scope that calls it, unless it is recognised as the renaming of a listed function that has vanished (same module / impl, same callers).",
+        comment="Frozen inventory of string operations that drop, alter, search or tokenise characters, per library function (rule A14.str-ops; verdicts are per property scope and operation, see props/strops.py). A change here means the way some text / attribute value / class / expression is cut up or cleaned has changed: review it, then regenerate with tools/gen_str_ops.py. `functions` lists the library functions that existed at review time with their callers: a function not listed is a new helper and belongs to the scope that calls it, unless it is recognised as the renaming of a listed function that has vanished (same module / impl, same callers). `adts` records the shape (kind, variant and field names) of every library type for the same purpose: a type that has vanished and a new one of the same shape in the same module are one type renamed.",
         entries=ents,
         functions={f: sorted(c for c, gs in edges.items() if f in gs) for f in sorted(funcs)},
+        adts=strops.adt_shapes(P),
     ),
     open(os.path.join(V, "policy", "tables", "str_ops.json"), "w"),
     indent=1,
